@@ -32,7 +32,7 @@ func (e *C11) Assumptions() []string {
 }
 func (e *C11) Plan(tier string, seed uint64) int {
 	if tier == "thorough" {
-		return 150000
+		return 1500000
 	}
 	return 40000
 }
